@@ -59,8 +59,25 @@ def content_pool(ctx, n):
     return texts, failing
 
 
-def gen_session(rnd, ok_ids, bad_ids, length, hashseeds):
-    """One random history.  Paths 0..np-1 are files of the session, higher ids are created by the library (getdict)."""
+OVERRIDES = [[['Print Output to Console', '0']], [['Gradient 1', '62'], ['Print Output to Console', '0']],
+             [['Plant Lifetime', '25']]]
+
+
+def combos(contents, base_ids):
+    """Requests built from a base file AND overriding params: appends base text + override lines to [contents];
+    -> [(base content id, override pairs, id of the combined content)]: same overrides over different bases and
+    different overrides over the same base."""
+    out = []
+    for b in base_ids:
+        for ov in OVERRIDES:
+            contents.append(contents[b] + ''.join(f'{k}, {v}\n' for k, v in ov))
+            out.append((b, ov, len(contents) - 1))
+    return out
+
+
+def gen_session(rnd, ok_ids, bad_ids, length, hashseeds, mixes=()):
+    """One random history.  Paths 0..np-1 are files of the session, higher ids are created by the library
+    (getdict, getmix)."""
     ndirs, npaths = 3, rnd.randint(2, 4)
     ops, nclients, nextp = [], 0, npaths
     written = {}
@@ -81,13 +98,24 @@ def gen_session(rnd, ok_ids, bad_ids, length, hashseeds):
             p = rnd.randrange(npaths)
             ops.append(['write', p, content])
             written[p] = content
-        elif x < 0.72:
+        elif x < 0.70:
             ops.append(['getdict', rnd.randrange(nclients), nextp, content])
             written[nextp] = content
             nextp += 1
-        elif x < 0.76 and written:
+        elif x < 0.78 and mixes:
+            b, ov, cid = rnd.choice(mixes)
+            holders = [q for q, c in written.items() if c == b]
+            if not holders:   # put the base content into a file first
+                holders = [rnd.randrange(npaths)]
+                ops.append(['write', holders[0], b])
+                written[holders[0]] = b
+            ops.append(['getmix', rnd.randrange(nclients), nextp, rnd.choice(holders), ov, cid])
+            written[nextp] = cid
+            nextp += 1
+        elif x < 0.80 and written:
             p = rnd.choice([q for q in written if q < npaths] or [0])
             ops.append(['delete', p])
+            written.pop(p, None)
         elif x < 0.85:
             ops.append(['chdir', rnd.randrange(ndirs)])
         elif x < 0.90:
@@ -167,8 +195,22 @@ class References:
         return {self.of(c)[1]: c for c in sorted(set(ids), reverse=True) if self.of(c)[0] == 'ret'}
 
 
+CONTENT_FIELD = {'write': 2, 'getdict': 3, 'getmix': 5}
+
+
+def map_contents(ops, f):
+    """Copy of the operations with f applied to every content id."""
+    out = []
+    for o in ops:
+        o = list(o)
+        if o[0] in CONTENT_FIELD:
+            o[CONTENT_FIELD[o[0]]] = f(o[CONTENT_FIELD[o[0]]])
+        out.append(o)
+    return out
+
+
 def contents_used(s):
-    return sorted({o[2] for o in s['ops'] if o[0] == 'write'} | {o[3] for o in s['ops'] if o[0] == 'getdict'})
+    return sorted({o[CONTENT_FIELD[o[0]]] for o in s['ops'] if o[0] in CONTENT_FIELD})
 
 
 # ------------------------------------------------------------------------------------------------------------
@@ -191,10 +233,12 @@ def q_tokens(toks):
     return '[' + '; '.join(f'(AUser {int(t[1:])})' for t in toks) + ']'
 
 
-def expand(session, result, digest2content):
-    """-> (Coq ops, Coq observations, origin) with a getdict unfolded into Write + Get; origin[k] = index of the
-    operation the k-th model step came from."""
+def expand(session, result, digest2content, canon=lambda c: c):
+    """-> (Coq ops, Coq observations, origin) with a getdict/getmix unfolded into Write + Get; origin[k] = index of
+    the operation the k-th model step came from.  Contents with the same reference result are interchangeable:
+    [canon] maps a content id to the representative of its class (the one [digest2content] names)."""
     ops, obs, origin = [], [], []
+    session = dict(session, ops=map_contents(session['ops'], canon))
     for i, (op, b) in enumerate(zip(session['ops'], result['obs'])):
         kind = op[0]
         o = b['out']
@@ -203,12 +247,13 @@ def expand(session, result, digest2content):
         else:
             out = {'raised': 'Raised', 'noclient': 'NoSuchClient', 'done': 'Done'}[o[0]]
         pre, post = (q_dir(b['cb']), q_argv(b['ab'])), (q_dir(b['ca']), q_argv(b['aa']))
-        if kind == 'getdict':
-            ops.append(f'Write {op[2]} {op[3]}')
+        if kind in ('getdict', 'getmix'):
+            ops.append(f'Write {op[2]} {op[CONTENT_FIELD[kind]]}')
             obs.append(f'mkObs {pre[0]} {pre[1]} {pre[0]} {pre[1]} Done')
             origin.append(i)
         ops.append({'newclient': lambda: f'NewClient {"true" if op[1] else "false"}',
                     'get': lambda: f'Get {op[1]} {op[2]}', 'getdict': lambda: f'Get {op[1]} {op[2]}',
+                    'getmix': lambda: f'Get {op[1]} {op[2]}',
                     'write': lambda: f'Write {op[1]} {op[2]}', 'delete': lambda: f'Delete {op[1]}',
                     'chdir': lambda: f'Chdir (DUser {op[1]})', 'setargv': lambda: f'SetArgv {q_tokens(op[1])}',
                     'cli': lambda: f'Cli {op[1]}'}[kind]())
@@ -219,8 +264,10 @@ def expand(session, result, digest2content):
 
 def session_term(fn, fixed, session, result, refs):
     ids = contents_used(session)
-    ops, obs, origin = expand(session, result, refs.content_of_digest(ids))
-    okc = '[' + '; '.join(str(c) for c in refs.okc(ids)) + ']'
+    d2c = refs.content_of_digest(ids)
+    canon = lambda c: d2c[refs.of(c)[1]] if refs.of(c)[0] == 'ret' else c   # noqa: E731
+    ops, obs, origin = expand(session, result, d2c, canon)
+    okc = '[' + '; '.join(str(c) for c in sorted({canon(c) for c in refs.okc(ids)})) + ']'
     return (f'{fn} {"true" if fixed else "false"} {okc} (DUser {session["cwd"]}) {q_tokens(session["argv"])}\n'
             f'  [{"; ".join(ops)}]\n  [{"; ".join(obs)}]'), origin
 
@@ -283,15 +330,7 @@ def compact(session, contents):
     """Self-contained copy: only the contents it uses, renumbered."""
     used = contents_used(session)
     ren = {c: k for k, c in enumerate(used)}
-    ops = []
-    for o in session['ops']:
-        o = list(o)
-        if o[0] == 'write':
-            o[2] = ren[o[2]]
-        elif o[0] == 'getdict':
-            o[3] = ren[o[3]]
-        ops.append(o)
-    return dict(session, ops=ops, contents=[contents[c] for c in used])
+    return dict(session, ops=map_contents(session['ops'], ren.get), contents=[contents[c] for c in used])
 
 
 def minimize(ctx, session, contents, still_fails, budget_rounds=8, budget_s=60):
